@@ -35,6 +35,7 @@ fn fuzz_opts() -> GraphOpts {
         mega: false,
         symlinks: false,
         read_above: true,
+        scratch_dir: false,
     }
 }
 
@@ -354,6 +355,8 @@ pub fn gen(prop: &str, seed: u64, index: u64, _tier: Tier) -> Case {
             "cat @ROOT@/flood.txt",
             // a "shell" that ignores the command and reads its standard input
             "sh -c cat",
+            // a "shell" that ignores the command, succeeds, and says something on stderr
+            "sh -c echo>&2",
         ]))
         .to_string();
         if build_verify {
